@@ -2,6 +2,7 @@
 // SPDX-License-Identifier: Apache-2.0
 
 #include <stdint.h>
+#include <limits>
 #include <memory>
 #include <ostream>
 #include <string>
@@ -413,6 +414,17 @@ void DoubleGauge::Record(double value, const opentelemetry::context::Context &co
 }
 #endif
 
+namespace
+{
+// The SDK aggregates integer measurements as int64_t. An unsigned value above INT64_MAX cannot be
+// represented there; converting it would record a negative number instead (first bucket, negative
+// min, decreasing sum).
+inline bool FitsInt64(uint64_t value) noexcept
+{
+  return value <= static_cast<uint64_t>((std::numeric_limits<int64_t>::max)());
+}
+}  // namespace
+
 LongHistogram::LongHistogram(const InstrumentDescriptor &instrument_descriptor,
                              std::unique_ptr<SyncWritableMetricStorage> storage)
     : Synchronous(instrument_descriptor, std::move(storage))
@@ -428,6 +440,13 @@ void LongHistogram::Record(uint64_t value,
                            const opentelemetry::common::KeyValueIterable &attributes,
                            const opentelemetry::context::Context &context) noexcept
 {
+  if (!FitsInt64(value))
+  {
+    OTEL_INTERNAL_LOG_WARN(
+        "[LongHistogram::Record(V,A,C)] Value not recorded - value above the int64 range for: "
+        << instrument_descriptor_.name_);
+    return;
+  }
   if (!storage_)
   {
     OTEL_INTERNAL_LOG_WARN(
@@ -440,6 +459,13 @@ void LongHistogram::Record(uint64_t value,
 
 void LongHistogram::Record(uint64_t value, const opentelemetry::context::Context &context) noexcept
 {
+  if (!FitsInt64(value))
+  {
+    OTEL_INTERNAL_LOG_WARN(
+        "[LongHistogram::Record(V,C)] Value not recorded - value above the int64 range for: "
+        << instrument_descriptor_.name_);
+    return;
+  }
   if (!storage_)
   {
     OTEL_INTERNAL_LOG_WARN("[LongHistogram::Record(V,C)] Value not recorded - invalid storage for: "
@@ -453,6 +479,13 @@ void LongHistogram::Record(uint64_t value, const opentelemetry::context::Context
 void LongHistogram::Record(uint64_t value,
                            const opentelemetry::common::KeyValueIterable &attributes) noexcept
 {
+  if (!FitsInt64(value))
+  {
+    OTEL_INTERNAL_LOG_WARN(
+        "[LongHistogram::Record(V,A)] Value not recorded - value above the int64 range for: "
+        << instrument_descriptor_.name_);
+    return;
+  }
   if (!storage_)
   {
     OTEL_INTERNAL_LOG_WARN("[LongHistogram::Record(V,A)] Value not recorded - invalid storage for: "
@@ -465,6 +498,13 @@ void LongHistogram::Record(uint64_t value,
 
 void LongHistogram::Record(uint64_t value) noexcept
 {
+  if (!FitsInt64(value))
+  {
+    OTEL_INTERNAL_LOG_WARN(
+        "[LongHistogram::Record(V)] Value not recorded - value above the int64 range for: "
+        << instrument_descriptor_.name_);
+    return;
+  }
   if (!storage_)
   {
     OTEL_INTERNAL_LOG_WARN("[LongHistogram::Record(V)] Value not recorded - invalid storage for: "
